@@ -40,7 +40,14 @@ Import ListNotations.
 
 Definition vec := list Q.
 
-Inductive cmp_kind := CmpLt | CmpLe | CmpUnknown.
+(** how the success return is guarded: [if norm < tol: return ok] (CmpLt; CmpLe for [<=]) or the
+    early-continue form [if norm >= tol: ...; continue] followed by an unconditional success return
+    (CmpNotGe; CmpNotGt for [>]).  On numbers "not >=" is "<"; on a NaN norm it is not: every
+    comparison with NaN is False, so the early-continue form FALLS THROUGH to the success return.
+    The loop over finite rational buffers below cannot tell the two apart (its only non-finite norms
+    come from a division by zero and are treated as "not below"); the loop over IEEE values in
+    SteadyNan.v can, and is the model of the code on buffers that contain inf/nan. *)
+Inductive cmp_kind := CmpLt | CmpLe | CmpUnknown | CmpNotGe | CmpNotGt.
 Inductive norm_kind := NormL2 | NormUnknown.
 Inductive prev_kind := PrevCopy | PrevAlias | PrevUnknown.
 Inductive rel_kind := RelDivPrev | RelUnknown.
@@ -109,6 +116,8 @@ Definition below (F : ss_facts) (d : vec) (tol : Q) : bool :=
   match sf_norm F, sf_cmp F with
   | NormL2, CmpLt => Qltb 0 tol && Qltb (sumsq d) (tol * tol)
   | NormL2, CmpLe => Qle_bool 0 tol && Qle_bool (sumsq d) (tol * tol)
+  | NormL2, CmpNotGe => Qltb 0 tol && Qltb (sumsq d) (tol * tol)          (* finite norm: not >= is < *)
+  | NormL2, CmpNotGt => Qle_bool 0 tol && Qle_bool (sumsq d) (tol * tol)   (* finite norm: not > is <= *)
   | _, _ => false
   end.
 
